@@ -38,6 +38,18 @@ LedgerDrift(b, s0, e) ==
 VarsDrift(b, s0, e) ==
     \E i \in 1..Len(e.vars) : Range(e.vars[i].names) # s0.vt[e.vars[i].s]
 
+\* ledgers observed during main(): rows of [c, int, f |-> << <<sector, local>>, ... >>]; LAG_F is in the real F equation
+\* from the constructor on, the spec adds it when the ledgers are closed
+PairMono(t) == { << p[1], p[2] >> : p \in Range(t.f) }
+PhaseRowAgrees(bag, row) ==
+    /\ { PairMono(t) : t \in Range(row) } = DOMAIN bag
+    /\ \A t \in Range(row) : t.int /\ t.c = bag[PairMono(t)]
+PhaseLedgerDrift(s0, e) ==
+    \E i \in 1..Len(e.ledgers) :
+        LET r == e.ledgers[i]
+        IN \/ ~PhaseRowAgrees(MAdd(MNorm(s0.F[r.s]), {<< r.s, "LAG_F" >>}, 1), r.F)
+           \/ ~PhaseRowAgrees(MNorm(s0.INC[r.s]), r.INC)
+
 K0(e) == IF e.hasic THEN 2 ELSE 1
 
 Clauses(b, s0, e) ==
@@ -80,6 +92,32 @@ TraceNext ==
     /\ l <= Len(Log)
     /\ l' = l + 1
     /\ LET e == Log[l] IN
+       \/ /\ e.ev = "BuildStart"        \* the model has been declared; main() is about to run
+          /\ bp' = LookupBp(e.name)
+          /\ decl' = e.decl
+          /\ st' = DeclareAll(InitialSt(bp'), bp', decl')
+          /\ phase' = "gen" /\ gi' = 1
+          /\ fails' = fails
+       \/ /\ e.ev = "Phase" /\ e.kind = "Generate"     \* one sector's _GenerateEquations returned
+          /\ IF phase = "gen" /\ gi <= NSec(bp)
+             THEN /\ st' = Gen(st, bp, decl, GenOrder(bp, decl)[gi])
+                  /\ gi' = gi + 1
+                  /\ fails' = fails
+                        \cup (IF e.sector # GenOrder(bp, decl)[gi] THEN {"drift_generate_order"} ELSE {})
+                        \cup (IF e.observable /\ st'.err = NoErr /\ PhaseLedgerDrift(st', e) THEN {"drift_phase_generate"} ELSE {})
+             ELSE /\ st' = st /\ gi' = gi /\ fails' = fails \cup {"drift_unexpected_generate"}
+          /\ UNCHANGED << bp, phase, decl >>
+       \/ /\ e.ev = "Phase" /\ e.kind = "CashFlows"
+          /\ st' = CashFlowsOp(st, bp, bp.flows \o st.reg)
+          /\ phase' = "flows"
+          /\ fails' = fails \cup (IF e.observable /\ st'.err = NoErr /\ PhaseLedgerDrift(st', e) THEN {"drift_phase_cashflows"} ELSE {})
+                             \cup (IF gi # NSec(bp) + 1 THEN {"drift_generate_count"} ELSE {})
+          /\ UNCHANGED << bp, decl, gi >>
+       \/ /\ e.ev = "Phase" /\ e.kind = "Exogenous"
+          /\ st' = ExoOp(st, bp.exo)
+          /\ phase' = "exo"
+          /\ fails' = fails \cup (IF e.observable /\ st'.err = NoErr /\ PhaseLedgerDrift(st', e) THEN {"drift_phase_exogenous"} ELSE {})
+          /\ UNCHANGED << bp, decl, gi >>
        \/ /\ e.ev = "Build"
           /\ bp' = LookupBp(e.name)
           /\ decl' = e.decl
